@@ -149,7 +149,17 @@ func c04(p *P) {
 				"loop-carried base is "+strings.Join(be, " | ")+" — the next certificate would not be checked against the head finalized by its predecessor")
 			r.Check(!phiSelfReachable(basePhi), "C04.R1", "ValidateFinalityCertificates: every accepted certificate replaces the expected base", where, "no path through the loop body keeps the previous base",
 				"some path through the loop body leaves the expected base unchanged (a nil base from the caller stays nil, so the next certificate's linkage is not checked)")
-			pe := phiEdgeCanons(prevPhi)
+			var pe []string
+			for _, e := range phiEdgeCanons(prevPhi) {
+				// a helper returning (table, err) renders as a nested phi whose error paths yield nil: flatten, drop nil
+				for _, a := range splitAlternatives(e) {
+					if a != "nil" {
+						pe = append(pe, a)
+					}
+				}
+			}
+			sort.Strings(pe)
+			pe = uniq(pe)
 			okPrev := len(pe) == 2 && pe[0] == "$2" && strings.HasPrefix(pe[1], "certs.ApplyPowerTableDiffs(phi($2|↻), [") && strings.HasSuffix(pe[1], ".PowerTableDelta])#0")
 			r.Check(okPrev, "C04.R1", "ValidateFinalityCertificates: next table := previous table with this certificate's delta applied", where, strings.Join(pe, " | "), "loop-carried power table is "+strings.Join(pe, " | "))
 			for _, cs := range callsTo(v, false, "certs.verifyFinalityCertificateSignature") {
